@@ -87,33 +87,7 @@ func runC12(c *Ctx) {
 			R.Decide(lay, "concat-layout", fi.Name, "copies", c.pos(fi), "len = len(a)+len(b); a then b", whyL)
 		}
 	}
-	if fi := c.fn("result-fresh", "slices.Clone"); fi != nil {
-		if ps := c.paths("result-fresh", fi); ps != nil {
-			s := paramOf(fi, 0)
-			ok, why := true, ""
-			for _, p := range ps {
-				if r := p.Rets[0]; len(p.Rets) == 1 && r.Op == "builtin" && r.Sym == "append" && len(r.Args) == 2 && r.Args[0].Op == "mkslice" &&
-					r.Args[0].Args[0].IsConst("0") && len(r.Args[0].Args) > 1 && isLenOf(r.Args[0].Args[1], s) && r.Args[1].Key() == s.Key() {
-					continue // append(make(S, 0, len(slice)), slice...): fresh, same length and capacity
-				}
-				if len(p.Rets) != 1 || p.Rets[0].Op != "mkslice" || !isLenOf(p.Rets[0].Args[0], s) {
-					ok, why = false, fmt.Sprintf("a path returns %s, not make(S, len(slice))", p.Rets[0])
-					continue
-				}
-				copied := false
-				for i := range p.Events {
-					e := &p.Events[i]
-					if e.Kind == "call" && e.Name == "builtin.copy" && e.Args[0].Key() == p.Rets[0].Key() && e.Args[1].Key() == s.Key() {
-						copied = true
-					}
-				}
-				if !copied {
-					ok, why = false, "the contents are not copied"
-				}
-			}
-			R.Decide(ok, "result-fresh", fi.Name, "make", c.pos(fi), "make(len)+copy on every path", why)
-		}
-	}
+	c12CloneRow(c, "result-fresh")
 	if fi := c.fn("result-fresh", "slices.Repeat"); fi != nil {
 		if ps := c.paths("result-fresh", fi); ps != nil {
 			ok, why := true, ""
@@ -220,6 +194,39 @@ func runC12(c *Ctx) {
 
 // c12Splice decides the insert/remove primitives (shift distances on the grown slice, truncation); C07 re-uses
 // the single-element rows, on which Sorted.Add/Remove/RemoveAt rest.
+// c12CloneRow decides slices.Clone: a make of the argument's length (or append to an empty make of that capacity)
+// with the contents copied, on every path. C07 and C08 re-run it as `clone-helper` when their code copies through it.
+func c12CloneRow(c *Ctx, rule string) {
+	R := c.R
+	if fi := c.fn(rule, "slices.Clone"); fi != nil {
+		if ps := c.paths(rule, fi); ps != nil {
+			s := paramOf(fi, 0)
+			ok, why := true, ""
+			for _, p := range ps {
+				if r := p.Rets[0]; len(p.Rets) == 1 && r.Op == "builtin" && r.Sym == "append" && len(r.Args) == 2 && r.Args[0].Op == "mkslice" &&
+					r.Args[0].Args[0].IsConst("0") && len(r.Args[0].Args) > 1 && isLenOf(r.Args[0].Args[1], s) && r.Args[1].Key() == s.Key() {
+					continue // append(make(S, 0, len(slice)), slice...): fresh, same length and capacity
+				}
+				if len(p.Rets) != 1 || p.Rets[0].Op != "mkslice" || !isLenOf(p.Rets[0].Args[0], s) {
+					ok, why = false, fmt.Sprintf("a path returns %s, not make(S, len(slice))", p.Rets[0])
+					continue
+				}
+				copied := false
+				for i := range p.Events {
+					e := &p.Events[i]
+					if e.Kind == "call" && e.Name == "builtin.copy" && e.Args[0].Key() == p.Rets[0].Key() && e.Args[1].Key() == s.Key() {
+						copied = true
+					}
+				}
+				if !copied {
+					ok, why = false, "the contents are not copied"
+				}
+			}
+			R.Decide(ok, rule, fi.Name, "make", c.pos(fi), "make(len)+copy on every path", why)
+		}
+	}
+}
+
 func c12Splice(c *Ctx, rule string, withMulti bool) {
 	R := c.R
 	sliceLo := func(t *Term) (*Term, *Term, bool) { // base, lo ; only open-ended s[lo:]
